@@ -438,23 +438,7 @@ func anchorContexts(f *ssa.Function, depth int) []*ssa.Function {
 
 func ruleTerminalStatesStay(c *Check, p *Program, rule string) {
 	n := 0
-	for _, fn := range moduleFuncs(p, pkgRoot) {
-		rt := recvTypeName(fn)
-		if fn.Parent() != nil || (rt != "Reader" && rt != "Writer") {
-			continue
-		}
-		var sites []ssa.CallInstruction
-		for _, ci := range callsIn(fn) {
-			if _, isDefer := ci.(*ssa.Defer); isDefer && calleeIs(ci, pkgRoot, "_State.nextd") {
-				sites = append(sites, ci)
-			}
-			if _, isCall := ci.(*ssa.Call); isCall && calleeIs(ci, pkgRoot, "_State.next") {
-				sites = append(sites, ci)
-			}
-		}
-		if len(sites) == 0 {
-			continue
-		}
+	judgeSites := func(fn *ssa.Function, sites []ssa.CallInstruction, rt string) {
 		sv := stateLoadOf(fn)
 		for i, ci := range sites {
 			n++
@@ -474,19 +458,54 @@ func ruleTerminalStatesStay(c *Check, p *Program, rule string) {
 			}
 			at := fullSet(8)
 			svIn := sv.(ssa.Instruction)
-			// the site is judged with the values the dispatch lets through; a site that precedes the load of the
-			// state word sees every state
-			if ci.Block() != svIn.Block() || idxOf(ci) > idxOf(svIn) {
+			// the site is judged with the values the dispatch lets through; a site in the block of the load of the state
+			// word (before or after it) sees every state
+			if ci.Block() != svIn.Block() {
 				if s, ok := valueSetsAt(fn, sv, svIn.Block(), 8)[ci.Block()]; ok {
 					at = s
-				}
-				if ci.Block() == svIn.Block() {
-					at = fullSet(8)
 				}
 			}
 			got := at.intersect(forbidden)
 			c.Cond(len(got) == 0, rule, key, p.InstrPos(ci), desc, "state set at the site: "+at.String(), "the transition is reachable (or registered) with the state word in "+got.String()+": a closed or failed "+rt+" is moved back to newState by a plain call, and the next call starts another frame on the same stream")
 		}
+	}
+	for _, fn := range moduleFuncs(p, pkgRoot) {
+		rt := recvTypeName(fn)
+		if fn.Parent() != nil || (rt != "Reader" && rt != "Writer") {
+			continue
+		}
+		var sites []ssa.CallInstruction
+		for _, ci := range callsIn(fn) {
+			if _, isDefer := ci.(*ssa.Defer); isDefer && calleeIs(ci, pkgRoot, "_State.nextd") {
+				sites = append(sites, ci)
+			}
+			if _, isCall := ci.(*ssa.Call); isCall && calleeIs(ci, pkgRoot, "_State.next") {
+				sites = append(sites, ci)
+			}
+		}
+		if len(sites) == 0 {
+			continue
+		}
+		if stateLoadOf(fn) == nil && isHelper(fn) {
+			// a helper that performs the transition for its callers: judged where it is called
+			byFn := map[*ssa.Function][]ssa.CallInstruction{}
+			var order []*ssa.Function
+			for _, cs := range callSitesOf(fn) {
+				if _, isCall := cs.(*ssa.Call); isCall && cs.Parent() != nil && cs.Parent() != fn {
+					if len(byFn[cs.Parent()]) == 0 {
+						order = append(order, cs.Parent())
+					}
+					byFn[cs.Parent()] = append(byFn[cs.Parent()], cs)
+				}
+			}
+			if len(order) > 0 {
+				for _, g := range order {
+					judgeSites(g, byFn[g], rt)
+				}
+				continue
+			}
+		}
+		judgeSites(fn, sites, rt)
 	}
 	if n < 5 {
 		c.Fail(rule, "lifecycle#transition-sites", "", "the transition sites of Reader and Writer are resolved", fmt.Sprintf("only %d calls of _State.next / deferred _State.nextd found (confirmed by reading: 7)", n))
